@@ -10,14 +10,20 @@ mod c05;
 mod c06;
 mod c07;
 mod c08;
+mod c09;
+mod c10;
 mod c11;
 mod c12;
+mod c13;
 mod c14;
 mod c15;
+mod c16;
+mod c17;
 mod c18;
 mod c20;
 mod hostile;
 mod mockterm;
+mod pty;
 mod refre;
 mod refsgr;
 mod refvt;
@@ -41,6 +47,13 @@ enum Mode {
 }
 
 fn main() {
+    // deterministic environment for the pty sessions (capability detection reads these)
+    // SAFETY: single-threaded at this point
+    unsafe {
+        std::env::set_var("TERM", "xterm");
+        std::env::remove_var("COLORTERM");
+        std::env::remove_var("SURFNTERM");
+    }
     engine::install_panic_hook();
     let args: Vec<String> = std::env::args().skip(1).collect();
     let mut id = String::new();
@@ -97,10 +110,15 @@ fn main() {
         "C06" => dispatch(c06::C06, &mode),
         "C07" => dispatch(c07::C07, &mode),
         "C08" => dispatch(c08::C08, &mode),
+        "C09" => dispatch(c09::C09, &mode),
+        "C10" => dispatch(c10::C10, &mode),
         "C11" => dispatch(c11::C11, &mode),
         "C12" => dispatch(c12::C12, &mode),
+        "C13" => dispatch(c13::C13, &mode),
         "C14" => dispatch(c14::C14, &mode),
         "C15" => dispatch(c15::C15, &mode),
+        "C16" => dispatch(c16::C16, &mode),
+        "C17" => dispatch(c17::C17, &mode),
         "C18" => dispatch(c18::C18, &mode),
         "C20" => dispatch(c20::C20, &mode),
         _ => {
